@@ -340,11 +340,14 @@ impl idlc_codegen::functions::ParameterVisitor for Implementation {
             r#"boSizes[{bo_sz_idx}] = {sz};
             "#,
         ));
+        // Each user of `bundleOut` gets its own block: a method may have several.
         self.post_call.push(format!(
-            r#"{BYTE_BUFFER} {BUNDLE_OUT};
+            r#"{{
+            {BYTE_BUFFER} {BUNDLE_OUT};
             {BUNDLE_OUT} = {BYTE_BUFFER}.wrap({BO}[{bo_idx}]).order({BYTE_ORDER});
             if({name} != null) {{
                 {name}[0] = {BUNDLE_OUT}.get{ty}();
+            }}
             }}
             "#,
         ));
@@ -365,8 +368,10 @@ impl idlc_codegen::functions::ParameterVisitor for Implementation {
             "#,
         ));
         self.post_call.push(format!(
-            r#"{BYTE_BUFFER} {BUNDLE_OUT} = {BYTE_BUFFER}.wrap({BO}[{bo_idx}]).order({BYTE_ORDER});
+            r#"{{
+            {BYTE_BUFFER} {BUNDLE_OUT} = {BYTE_BUFFER}.wrap({BO}[{bo_idx}]).order({BYTE_ORDER});
             {definition}
+            }}
             "#,
         ));
     }
@@ -394,9 +399,11 @@ impl idlc_codegen::functions::ParameterVisitor for Implementation {
             "#,
         ));
         self.post_call.push(format!(
-            r#"{BYTE_BUFFER} {BUNDLE_OUT} = {BYTE_BUFFER}.wrap({BO}[{bo_idx}]).order({BYTE_ORDER});
+            r#"{{
+            {BYTE_BUFFER} {BUNDLE_OUT} = {BYTE_BUFFER}.wrap({BO}[{bo_idx}]).order({BYTE_ORDER});
             if ({name} != null) {{
                 {fields}
+            }}
             }}
             "#,
         ));
